@@ -233,6 +233,7 @@ func (fr *Frame) callBuiltin(ins *ssa.Call, b *ssa.Builtin, c *ssa.CallCommon, s
 
 func (fr *Frame) callStatic(ins *ssa.Call, fn *ssa.Function, bindings []Val, args []Val, st *State) []Val {
 	ex := fr.ex
+	fr.callsiteObligations(ins, fn, args, st)
 	if ex.eng.inModule(fn) && fn.Synthetic == "" {
 		fc := ex.calleeContract(fn)
 		if fc != nil && fc.Pure && fc.Assumed {
@@ -684,4 +685,46 @@ func fnArgTerm(vc *VC, v Val) string {
 	f := vc.fresh("fnarg", "Int")
 	vc.assume("true", not(eq(f, "0")))
 	return f
+}
+
+// frameContract: the contract that annotates the function this frame executes (the unit's own contract, or the
+// inline contract of an inlined callee).
+func (fr *Frame) frameContract() *FuncContract {
+	ex := fr.ex
+	if fr.fn == ex.top {
+		return ex.contract
+	}
+	for _, c := range ex.eng.contracts[fr.fn] {
+		if c.Inline {
+			return c
+		}
+	}
+	return nil
+}
+
+// callsiteObligations: `callsite F: C` clauses of the calling function are proved at each of its calls of F; in C
+// the caller's parameters and locals have their current values and callee_<param> is the actual argument.
+func (fr *Frame) callsiteObligations(ins *ssa.Call, fn *ssa.Function, args []Val, st *State) {
+	ex := fr.ex
+	fc := fr.frameContract()
+	if fc == nil || len(fc.Callsites[fn.Name()]) == 0 {
+		return
+	}
+	tc := fr.loopCtx(nil, st)
+	for i, p := range fn.Params {
+		if i >= len(args) {
+			break
+		}
+		if t, ok := ex.valTermOK(args[i]); ok {
+			tc.vars["callee_"+p.Name()] = TVal{t, p.Type()}
+		}
+	}
+	for i, c := range fc.Callsites[fn.Name()] {
+		g := ex.trClause(tc, c)
+		kind := "callsite@" + fn.Name()
+		if fr.fn != ex.top {
+			kind += "@" + fr.fn.Name()
+		}
+		ex.vc.oblige(kind, fmt.Sprintf("call-site condition %d for %s: %s", i+1, fn.Name(), c.Src), ex.pos(ins.Pos()), st.pc, g)
+	}
 }
